@@ -12,6 +12,9 @@ for f in sorted(glob.glob(os.path.join(V, 'findings', 'C*.json'))):
         k.setdefault('property', pid)
         k.setdefault('status', 'open')
         assert k['property'] == pid and 'id' in k and 'what' in k, (f, k)
+        if k['status'] == 'fixed':
+            # the line form asked for by the interface; a fixed entry suppresses nothing (common.py only honours status == 'open')
+            k['record'] = f"fixed: property={pid} {k.get('commit', '?')} {k['what'][:200]}"
         out.append(k)
 json.dump({'findings': out}, open(os.path.join(V, 'known_findings.json'), 'w'), indent=1)
 print('known_findings.json:', len(out), 'entries,', sum(1 for k in out if k['status'] == 'open'), 'open')
